@@ -18,13 +18,14 @@ Definition p1 : list sop :=
 
 Example p1_outs : souts p1 =
   [ OChan 0; OChan 1; OChan 2; OChan 0; OSub 0; OSub 1; OSub 2; OSub 3; OBlocked;
-    OBurst [DOk 0; DOk 2; DTypeErr; DTypeErr; DOk 0; DOk 0] [(2, Ev 10 0 0 0); (3, Ev 14 3 0 1)];
-    OYield (Ev 10 0 0 0); OBlocked; OYield (Ev 10 0 0 0); OYield (Ev 16 0 1 0); OLeft;
-    OBurst [DOk 0] []; OYield (Ev 18 0 0 0); OUnbound ].
+    OBurst [DOk 0; DOk 2; DTypeErr; DTypeErr; DOk 0; DOk 1] [(2, Ev 10 0 0 0); (3, Ev 14 3 0 1)];
+    OYield (Ev 10 0 0 0); OBlocked; OYield (Ev 10 0 0 0); OBlocked; OLeft;
+    OBurst [DOk 1] [(1, Ev 18 0 0 0)]; OBlocked; OUnbound ].
 Proof. vm_compute. reflexivity. Qed.
 
+(* subscriber 1 (channels 0 and 2, even ids only, queue of 2): event 16 overflowed for it alone *)
 Example p1_accepted : match nth_error (streams (srun init p1)) 1 with
-  | Some st => s_accepted st = [Ev 10 0 0 0; Ev 11 0 0 0; Ev 16 0 1 0; Ev 18 0 0 0] /\
-               s_yielded st = [Ev 10 0 0 0; Ev 16 0 1 0; Ev 18 0 0 0]
+  | Some st => s_accepted st = [Ev 10 0 0 0; Ev 11 0 0 0; Ev 18 0 0 0] /\
+               s_yielded st = [Ev 10 0 0 0; Ev 18 0 0 0]
   | None => False end.
 Proof. vm_compute. auto. Qed.
